@@ -599,6 +599,16 @@ def corpus_cases():
         (F('sum', seq([Dx(1e100), Dd(1), Dx(-1e100)])), 'F08q'),
         (F('avg', seq([Dx(1e100), Dd(1), Dx(-1e100)])), 'F08q'),
         (F('sum', seq([Dd(1), Dx(1e100), Dd(1), Dx(-1e100)])), 'F08q'),
+        (F('index-of', seq([I(10 ** 400), Dd('inf'), I(-(10 ** 400)), Dd(1)]), Dd('inf')), 'F08o-huge'),
+        (F('index-of', seq([I(10 ** 400), Dd('inf'), I(-(10 ** 400)), Dd(1)]), I(10 ** 400)), 'F08o-huge'),
+        (F('distinct-values', seq([I(10 ** 400), Dd('inf'), I(-(10 ** 400)), Dd('-inf'), Dd(1)])), 'F08o-huge'),
+        (F('distinct-values', seq([Dd('inf'), I(10 ** 400), Dd(1)])), 'F08o-huge'),
+        (F('sum', seq([Dd('inf'), I(-(10 ** 400))])), 'F08t'),
+        (F('max', seq([Dd(1), I(10 ** 400)])), 'F08t'),
+        (F('avg', seq([I(10 ** 400), Dd(1)])), 'F08t'),
+        (F('sum', F('remove', seq([I(1), I(2)]), EMPTY)), 'F08r'),
+        (seq([F('not', ('filter', ('filter', ('var', 2), ('dot',)), ('dot',))), ('dot',)]), 'F08s'),
+        (seq([F('boolean', ('filter', ('var', 2), B(True))), ('dot',), ('pos',), ('last',)]), 'F08s'),
         (('for', [(0, ('var', 0))], ('var', 0)), 'F08b'),
     ]
     return [Case(e, kind='corpus', note=n) for e, n in exprs]
@@ -618,7 +628,7 @@ def probe_cases(thorough: bool):
                 if a[1][0] == 'd' or op in ('eq', 'lt'):
                     add(('filter', s, ('cmp', op, ('pos',), a)), name)
         for a in nums:
-            for b in (nums if (thorough or n <= 3) else nums[::2]):
+            for b in (nums if thorough else (nums[::2] if n <= 3 else nums[::4])):
                 add(F('subsequence', s, a, b), name)
         for p in boundary_ints(n):
             add(F('remove', s, p), name)
@@ -651,7 +661,7 @@ def probe_cases(thorough: bool):
         for v in [Q('1.0'), Q('2.0'), Q('2.50'), Q('0.0'), U('2'), ('filter', ('var', 2), I(1))]:
             add(('filter', s, v), name)                      # numeric / non-numeric singleton predicates
         for v in [S('a'), S('x'), U('x'), I(1), Q('1.0'), Dd(1), B(True), Dx(0.1), Q('0.1')]:
-            for op in ('eq', 'lt', 'le', 'ne', 'ge', 'gt'):
+            for op in (('eq', 'lt', 'le', 'ne', 'ge', 'gt') if thorough else ('eq', 'lt', 'ge')):
                 add(('filter', s, ('cmp', op, ('dot',), v)), 'item-comparison')
             add(('some', [(5, s)], ('cmp', 'eq', ('var', 5), v)), 'item-comparison')
         add(('filter', s, ('last',)), name)
@@ -791,15 +801,23 @@ def equivalence_cases(rng, thorough: bool):
 # ---- random typed expressions ---------------------------------------------------------
 class Env:
     """what is in scope: item variables (single integers), sequence variables, focus"""
-    def __init__(self, ivars=(), svars=(0,), focus=True, next_id=10):
+    def __init__(self, ivars=(), svars=(0,), focus=True, next_id=10, nvars=()):
+        self.nvars = tuple(nvars)
         self.ivars, self.svars, self.focus, self.next_id = tuple(ivars), tuple(svars), focus, next_id
 
     def bind(self, vid):
         return Env(tuple(v for v in self.ivars if v != vid) + (vid,), tuple(v for v in self.svars if v != vid),
-                   self.focus, max(self.next_id, vid + 1))
+                   self.focus, max(self.next_id, vid + 1), tuple(v for v in self.nvars if v != vid))
+
+    def bind_node(self, vid):
+        return Env(tuple(v for v in self.ivars if v != vid), tuple(v for v in self.svars if v != vid),
+                   self.focus, max(self.next_id, vid + 1), tuple(v for v in self.nvars if v != vid) + (vid,))
 
     def with_focus(self):
-        return Env(self.ivars, self.svars, True, self.next_id)
+        return Env(self.ivars, self.svars, True, self.next_id, self.nvars)
+
+    def with_node_focus(self):
+        return Env(self.ivars, self.svars, 'node', self.next_id, self.nvars)
 
 
 class Gen:
@@ -817,22 +835,37 @@ class Gen:
     def int_lit(self):
         return I(self.rng.choice([0, 1, 1, 2, 2, 3, 4, 5, -1, 7, 10]))
 
+    ERR_RATE = 0.012
+
+    def err_leaf(self, want: str):
+        """a subexpression that raises a dynamic error when (and only when) it is evaluated"""
+        rng = self.rng
+        pool = [F('exactly-one', EMPTY), F('one-or-more', EMPTY), F('zero-or-one', seq([I(1), I(2)])),
+                ('ar', '+', I(1), S('a')), ('cmp', 'eq', seq([I(1), I(2)]), I(1)), F('boolean', seq([I(1), I(2)])),
+                ('cmp', 'lt', I(1), S('a')), F('remove', seq([I(1), I(2)]), EMPTY), ('to', I(1), S('x')),
+                F('sum', S('a')), F('subsequence', seq([I(1)]), S('a'))]
+        return rng.choice(pool)
+
     def integer(self, d: int, env: Env):
         """an expression whose value is one integer (or, rarely, empty)"""
         rng = self.rng
+        if rng.random() < self.ERR_RATE:
+            return self.err_leaf('int')
         r = rng.random()
         if d <= 0 or r < 0.25:
             opts = [self.int_lit(), self.int_lit()]
             if env.ivars:
                 opts += [('var', rng.choice(env.ivars))] * 3
-            if env.focus:
+            if env.focus == 'node':
+                opts += [('pos',), ('last',)]
+            elif env.focus:
                 opts += [('dot',), ('pos',), ('last',)]
             opts.append(('var', 1))
             return rng.choice(opts)
         if r < 0.45:
             return ('ar', rng.choice(['+', '-', '*', '+']), self.integer(d - 1, env), self.integer(d - 1, env))
         if r < 0.6:
-            return F('count', self.iseq(d - 1, env))
+            return F('count', self.iseq(d - 1, env) if rng.random() < 0.8 else self.nseq(d - 1, env))
         if r < 0.7:
             return F(rng.choice(['sum', 'max', 'min']), self.iseq(d - 1, env))
         if r < 0.8:
@@ -862,6 +895,8 @@ class Gen:
         if r < 0.68:
             return F('not', self.boolean(d - 1, env))
         if r < 0.78:
+            if rng.random() < 0.25:
+                return F(rng.choice(['empty', 'exists', 'boolean', 'not']), self.nseq(d - 1, env))
             return F(rng.choice(['empty', 'exists']), self.iseq(d - 1, env))
         if r < 0.94:
             binds, env2 = self.bindings(d - 1, env)
@@ -880,6 +915,15 @@ class Gen:
     def iseq(self, d: int, env: Env):
         """an expression whose value is a sequence of integers"""
         rng = self.rng
+        if rng.random() < self.ERR_RATE:
+            k = rng.random()
+            e = self.err_leaf('seq')
+            if k < 0.5:      # items first, then the error: lazy consumers may not reach it
+                return ('comma', self.iseq(max(d - 1, 0), env), e)
+            if k < 0.75 and env is not None:
+                return ('map', seq([self.int_lit(), self.int_lit(), self.int_lit()]),
+                        ('if', ('cmp', 'lt', ('pos',), I(rng.choice([2, 3]))), ('dot',), e))
+            return e
         r = rng.random()
         if d <= 0 or r < 0.18:
             k = rng.random()
@@ -918,14 +962,139 @@ class Gen:
             return ('to', self.integer(d - 1, env), self.integer(d - 1, env))
         return ('if', self.boolean(d - 1, env), self.iseq(d - 1, env), self.iseq(d - 1, env))
 
+    # ---- node sequences (items of $v2 and node variables bound by for) ----------------------
+    def nseq(self, d: int, env: Env):
+        rng = self.rng
+        r = rng.random()
+        if d <= 0 or r < 0.25:
+            if env.nvars and rng.random() < 0.4:
+                return ('var', rng.choice(env.nvars))
+            return ('var', 2)
+        if r < 0.35:
+            return ('comma', self.nseq(d - 1, env), self.nseq(d - 1, env))
+        if r < 0.55:
+            f = env.with_node_focus()
+            k = rng.random()
+            if k < 0.4:
+                pred = ('cmp', rng.choice(['eq', 'ne', 'lt', 'ge']), ('dot',), S(rng.choice(['x', '1', '2.5', ''])))
+            elif k < 0.7:
+                pred = ('cmp', rng.choice(['le', 'lt', 'ge', 'eq']), ('pos',), self.integer(d - 1, f)) \
+                    if rng.random() < 0.5 else self.number(d - 1, f)
+            elif k < 0.85:
+                pred = self.nseq(d - 1, env)               # effective boolean value of a node sequence
+            else:
+                pred = ('cmp', 'eq', ('pos',), ('last',))
+            return ('filter', self.nseq(d - 1, env), pred)
+        if r < 0.63:
+            return F(rng.choice(['reverse', 'tail', 'head', 'one-or-more']), self.nseq(d - 1, env))
+        if r < 0.72:
+            if rng.random() < 0.5:
+                return F('subsequence', self.nseq(d - 1, env), self.number(d - 1, env))
+            return F('subsequence', self.nseq(d - 1, env), self.number(d - 1, env), self.number(d - 1, env))
+        if r < 0.78:
+            return F('remove', self.nseq(d - 1, env), self.integer(d - 1, env))
+        if r < 0.84:
+            return F('insert-before', self.nseq(d - 1, env), self.integer(d - 1, env), self.nseq(d - 1, env))
+        if r < 0.92:
+            vid = self.fresh(env)
+            src = self.nseq(d - 1, env)
+            env2 = env.bind_node(vid)
+            return ('for', [(vid, src)], self.nseq(d - 1, env2))
+        if r < 0.96:
+            return ('map', self.nseq(d - 1, env), ('dot',))
+        return ('if', self.boolean(d - 1, env), self.nseq(d - 1, env), self.nseq(d - 1, env))
+
+    # ---- numeric tower ------------------------------------------------------------------------
+    DYADIC_DEC = ['0.5', '1.5', '2.25', '0.125', '3.0', '-0.75', '2.50', '1.0', '0.0']
+    OTHER_DEC = ['0.1', '0.3', '1.1', '2.75', '-0.2', '10.01', '0.10']
+    DOUBLES = [0.5, 1.5, 2.0, 1.0, -0.25, 2.25, 3.0, 0.0, -0.0, 8.0]
+
+    def numlit(self, flavour: str):
+        rng = self.rng
+        k = rng.random()
+        if flavour == 'dec':                # integers and decimals: sums are exact decimals
+            return self.int_lit() if k < 0.4 else Q(rng.choice(self.DYADIC_DEC + self.OTHER_DEC))
+        if flavour == 'dbl':                # integers, dyadic decimals and short doubles: sums are exact doubles
+            if k < 0.3:
+                return self.int_lit()
+            if k < 0.5:
+                return Q(rng.choice(self.DYADIC_DEC))
+            if k < 0.95:
+                return Dx(rng.choice(self.DOUBLES))
+            return Dd(rng.choice(['nan', 'inf', '-inf']))
+        return Dx(rng.choice(self.DOUBLES))
+
+    def numseq(self, d: int, env: Env, flavour=None):
+        rng = self.rng
+        flavour = flavour or rng.choice(['dec', 'dbl'])
+        r = rng.random()
+        if d <= 0 or r < 0.45:
+            return seq([self.numlit(flavour) for _ in range(rng.choice([0, 1, 2, 3, 3, 4, 5]))])
+        if r < 0.55:
+            return ('comma', self.numseq(d - 1, env, flavour), self.numseq(d - 1, env, flavour))
+        if r < 0.65:
+            return F(rng.choice(['reverse', 'tail', 'distinct-values']), self.numseq(d - 1, env, flavour))
+        if r < 0.75:
+            return F('subsequence', self.numseq(d - 1, env, flavour), self.number(d - 1, env))
+        if r < 0.85:
+            f = env.with_focus()
+            return ('filter', self.numseq(d - 1, env, flavour),
+                    ('cmp', rng.choice(['lt', 'le', 'gt', 'ge', 'eq', 'ne']), ('dot',), self.numlit(flavour)))
+        if r < 0.92:
+            return ('comma', self.numseq(d - 1, env, flavour), self.iseq(d - 1, env))
+        vid = self.fresh(env)
+        return ('for', [(vid, self.iseq(d - 1, env))], self.numseq(d - 1, env.bind(vid), flavour))
+
+    def numeric(self, d: int, env: Env):
+        """one numeric value (or empty) of any of the three types"""
+        rng = self.rng
+        flavour = rng.choice(['dec', 'dbl'])
+        r = rng.random()
+        if d <= 0 or r < 0.2:
+            return self.numlit(flavour)
+        if r < 0.7:
+            return F(rng.choice(['sum', 'avg', 'min', 'max', 'sum', 'avg']), self.numseq(d - 1, env, flavour))
+        if r < 0.8:
+            # operands stay short: the 28-digit rounding of xs:decimal products is not modelled
+            return ('ar', rng.choice(['+', '-', '*']), self.numlit(flavour),
+                    F(rng.choice(['sum', 'min', 'max']), self.numseq(d - 1, env, flavour)) if rng.random() < 0.6
+                    else self.numlit(flavour))
+        if r < 0.9:
+            return F('round', self.numeric(d - 1, env))
+        return F('head', self.numseq(d - 1, env, flavour))
+
     def top(self, d: int):
         env = Env()
         r = self.rng.random()
-        if r < 0.7:
+        if r < 0.5:
             return self.iseq(d, env)
-        if r < 0.85:
+        if r < 0.62:
             return self.boolean(d, env)
-        return self.integer(d, env)
+        if r < 0.7:
+            return self.integer(d, env)
+        if r < 0.82:
+            k = self.rng.random()
+            n = self.nseq(d, env)
+            if k < 0.6:
+                return n
+            if k < 0.7:
+                return F('distinct-values', n)
+            if k < 0.8:
+                return F('index-of', n, S(self.rng.choice(['x', '1', '2.5'])))
+            if k < 0.9:
+                return ('map', n, seq([('pos',), ('last',)]))
+            return F('string-join', n, S('|'))
+        if r < 0.92:
+            k = self.rng.random()
+            if k < 0.5:
+                return self.numeric(d, env)
+            ns = self.numseq(d, env)
+            if k < 0.7:
+                return ns
+            if k < 0.85:
+                return F('index-of', ns, self.numlit(self.rng.choice(['dec', 'dbl'])))
+            return F('distinct-values', ns)
+        return ('cmp', self.rng.choice(['eq', 'lt', 'le', 'ne']), self.numeric(d - 1, env), self.numeric(d - 1, env))
 
     def ctx(self):
         rng = self.rng
@@ -963,11 +1132,11 @@ def bounds(e, env):
     t = e[0]
     if t == 'lit':
         a = e[1]
-        return (1, abs(a[1]) if a[0] == 'i' else 8)
+        return (1, abs(a[1]) if a[0] == 'i' else (abs(a[1][0]) if a[0] == 'q' else 8))
     if t == 'empty':
         return (0, 0)
     if t == 'var':
-        return env['vars'].get(e[1], (4, 9))
+        return env['vars'].get(e[1], (6, 9))
     if t == 'dot':
         return (1, env['dot'])
     if t in ('pos', 'last'):
@@ -1086,7 +1255,7 @@ def kernel_probe(run: Run):
     for n in specials:
         for d in specials:
             pairs.append((n, d)); pairs.append((-n, d))
-    for _ in range(run.scale(1500, 15000)):
+    for _ in range(run.scale(900, 15000)):
         nb, db = rng.choice([8, 30, 53, 54, 64, 120, 1100]), rng.choice([1, 8, 30, 53, 64, 120, 1100])
         pairs.append((rng.getrandbits(nb) * rng.choice([1, -1]), rng.getrandbits(db) + 1))
         k = rng.randint(0, 30)
@@ -1169,6 +1338,7 @@ def evaluate(run: Run, cases: list[Case], stats=True) -> list[dict]:
         f = parse_answer(ans)
         model, spec = f['model'], f['spec']
         rec['model'], rec['spec'], rec['k'], rec['q'] = model, spec, f.get('k', '0'), f.get('q', '0')
+        rec['t'] = f.get('t', '0')
         rec['lazy'] = f.get('lazy', spec)
         rec['errs'] = set() if f.get('errs', '_') == '_' else set(f['errs'].split(','))
         t = text(c.expr)
@@ -1194,7 +1364,7 @@ def judge(run: Run, rec: dict, stats=True) -> list[Disagreement]:
             st.count(nt)
         st.count(f'depth:{min(depth(c.expr), 12)}')
         st.count('spec-result:' + (spec if spec.startswith('ERR') else ('empty' if spec == '_' else 'value')))
-    if 'UNSUPPORTED' in model or 'UNSUPPORTED' in spec:
+    if 'UNSUPPORTED' in model or 'UNSUPPORTED' in spec or 'ERR:UNSUPPORTED' in rec.get('errs', ()):
         if stats:
             st.count('outside-modelled-fragment')
         if model != spec:
@@ -1226,6 +1396,9 @@ def judge(run: Run, rec: dict, stats=True) -> list[Disagreement]:
         # F08q: trigger `!Spec.sumAgrees` / `!Spec.avgAgrees` computed by the driver (top-level sum / avg)
         if rec.get('q') == '1' and impl == model:
             tags = ['F08q']
+        # F08t: trigger `Spec.hugeIntPromoted` (top-level aggregate), observed as a bare OverflowError
+        if rec.get('t') == '1' and impl == 'ERR:OTHER:OverflowError':
+            tags = ['F08t']
         for tg in tags:
             if stats:
                 st.count('finding:' + tg)
@@ -1418,7 +1591,7 @@ def body(run: Run) -> int:
         cases = probe_cases(not run.quick)
         cases += equivalence_cases(rng, not run.quick)
         cases = [c for c in cases if c is not None]
-        cases += random_cases(rng, run.scale(15000, 120000), 6 if run.quick else 7)
+        cases += random_cases(rng, run.scale(8000, 120000), 6 if run.quick else 7)
         run.stats.rule = ('an evaluation = one expression in one dynamic context (item, position, size, variables) '
                           'evaluated by the Lean model, the Lean specification and the real engine under every '
                           'parser class that has the syntax (3.1, 3.0, 2.0); distinct = distinct (expression, '
